@@ -1,5 +1,5 @@
 (* C08 — no input makes gopatch crash or hang.   PARTIAL: see the end of this file. *)
-From GP Require Import Augment AugmentFacts AugmentShape Meta MetaFacts AstDiff DiffFacts WalkTotal.
+From GP Require Import Augment AugmentFacts AugmentShape Meta MetaFacts AstDiff DiffFacts WalkTotal WalkSame.
 Local Open Scope nat_scope.
 
 (* The hand-written token scanner of pgo/augment (find.go: pkg, imports, topLevelDecl,
@@ -103,3 +103,10 @@ Print Assumptions C08_snapshot_diff_total.
    go/scanner, go/parser, go/printer and imports.Process never crash; the reflection-based
    replacer never panics (the engine model returns an error value exactly where the code
    must: Properties/C03.v + correspondence); memory use. *)
+
+(* astdiff's nodeComparer (compareNodes), which Difference calls back into: total on every pair of
+   snapshots with fuel above the depth of the first - the recursion through nested lists and the
+   edit scripts computed on the way never runs out *)
+Theorem C08_compare_nodes_total : forall k from to, (vdepth from < k)%nat -> exists r, compare k from to = Some r.
+Proof. exact compare_total. Qed.
+Print Assumptions C08_compare_nodes_total.
